@@ -4242,6 +4242,19 @@ func (p *Posix) CopyObject(ctx context.Context, input s3response.CopyObjectInput
 		return nil, err
 	}
 
+	// a delete marker hides the object (its file still holds the data of
+	// the version it was made from): there is nothing to copy, as there is
+	// nothing to get
+	if p.versioningEnabled() {
+		isDelMarker, err := p.isObjDeleteMarker(srcBucket, srcObject)
+		if err == nil && isDelMarker {
+			if srcVersionId != "" {
+				return nil, s3err.GetAPIError(s3err.ErrInvalidRequest)
+			}
+			return nil, s3err.GetAPIError(s3err.ErrNoSuchKey)
+		}
+	}
+
 	objPath := joinPathWithTrailer(srcBucket, srcObject)
 	f, err := os.Open(objPath)
 	if errors.Is(err, fs.ErrNotExist) || errors.Is(err, syscall.ENOTDIR) {
